@@ -14,8 +14,8 @@ def queries():
         return Q('%s_s%d_m%d%s_%s' % (nm_, ns, nm, '' if ci is None else '_ci%d' % ci, tier), 'C09_split.c', 'split.cpp', defs=dict({'OP': op, 'NS': ns, 'NM': nm}, **({} if ci is None else {'CI': ci})), unwind=ns + 3, hunwind=ns + 5, loops=L(ns, nm), heap_cap=16, object_bits=10, tiers=(tier,),
                  bound={'op': nm_, 'subject': ns, 'separator': nm, 'max_splits': 'any 64-bit'}, timeout=900 if tier == 'quick' else 3000, mem_gb=8, **SV)
     def repl_q(ns, nm, nt, tier, ci=None):
-        return Q('replace_s%d_f%d_t%d%s_%s' % (ns, nm, nt, '' if ci is None else '_ci%d' % ci, tier), 'C09_split.c', 'string.cpp', config='small', defs=dict({'OP': 5, 'NS': ns, 'NM': nm, 'NT': nt}, **({} if ci is None else {'CI': ci})), unwind=ns + 3, hunwind=2 * ns + 6, loops=L(ns, nm),
-                 heap_cap=16, tiers=(tier,), bound={'op': 'replace', 'subject': ns, 'pattern': nm, 'replacement': nt}, timeout=900 if tier == 'quick' else 3000, mem_gb=10)
+        return Q('replace_s%d_f%d_t%d%s_%s' % (ns, nm, nt, '' if ci is None else '_ci%d' % ci, tier), 'C09_split.c', 'string.cpp', config='small', defs=dict({'OP': 5, 'NS': ns, 'NM': nm, 'NT': nt}, **({} if ci is None else {'CI': ci})), unwind=ns + 3, hunwind=max(2 * ns + 6, ns + 1 + ns * nt + 2), loops=L(ns, nm),
+                 heap_cap=max(16, ns + 1 + ns * nt + 2), tiers=(tier,), bound={'op': 'replace', 'subject': ns, 'pattern': nm, 'replacement': nt}, timeout=900 if tier == 'quick' else 3000, mem_gb=10)
     # quick: measured <= 60 s each (3-byte subjects; the 200-370 s combinations run at 2 bytes here and at 3-4 bytes in thorough)
     for op, nm_, seps in ((1, 'split_str', (0, 1, 2)), (3, 'split_ch', (1,)), (4, 'tokenize', (0, 1, 2))):
         for nm in seps: qs.append(split_q(nm_, op, 3, nm, 'quick'))
